@@ -268,6 +268,10 @@ def replay(ctx, case):
     if case.get("kind") == "pnlive":
         ctx.case(None, True)
         return pn_live_case(ctx, dict(case, rounds=[dict(r, packets=[tuple(x) for x in r["packets"]], swaps=[tuple(x) for x in r["swaps"]]) for r in case["rounds"]]))
+    if "script" in case and "fates" in case:
+        from vlib import simchecks
+
+        return simchecks.replay(ctx, case, "C02")
     if case.get("kind") == "emit":
         return emit_live_case(ctx, dict(case, ops=[tuple(o) for o in case["ops"]]))
     if case.get("kind") == "pn":
@@ -549,6 +553,9 @@ def plan(tier, seed):
         t.append(("pn-live-%d" % sh, {"fn": "pnlive", "examples": 150 if q else 6000, "shard": sh}))
     for sh in range(2):
         t.append(("emit-live-%d" % sh, {"fn": "emit", "examples": 150 if q else 6000, "shard": sh}))
+    from vlib import simchecks
+
+    t += simchecks.plan_for("C02", tier, seed)
     try:
         from vlib import tamper
 
@@ -571,6 +578,10 @@ def run_task(ctx, name, fn, **kw):
         pn_live_task(ctx, kw["examples"], kw["shard"])
     elif fn == "emit":
         emit_live_task(ctx, kw["examples"], kw["shard"])
+    elif fn == "sim":
+        from vlib import simchecks
+
+        simchecks.run_task(ctx, "C02", name, fn, **kw)
     else:
         from vlib import tamper
 
